@@ -273,18 +273,74 @@ func c11F35Pattern(cs c11Case) bool {
 	return f != nil && op.Kind == "query" && op.All && op.AllC.Kind != "" && op.AllC.Style != "scope" && f.table(op.Parent).hasEmb()
 }
 
-// per run: the listed witness still errors, the same call on a model without embedded relations does not, and the Lean model of
-// the conditions reaching preload (assocCondsReaching + inlineWellFormed) says the same
-func c11F35Probe(r *Result) {
-	run := func(fam string) error {
-		f := c11Families[fam]
-		w := c11ScaleWorld(f, 3, 7, nil)
-		w.idx = nil
-		cs := c11Case{World: w, Op: c11Op{Kind: "query", Parent: f.parentTables()[0].Name, Shape: "slice", All: true, AllC: c11Cond{Kind: "in", Set: []int{1, 2, 3}, Style: "inline"}}}
-		_, _, err := c11RunCase(cs)
-		return err
+// c11AssocFacts: the regenerated fact (extract/gen_c11_assoc.go -> Gen/AssocCondsFacts.lean, read through the Lean driver) that
+// tells whether the repair of F35 is present in the tree under test. It selects the model (Lean side: assocCondsCurrent) and
+// switches the generators: a repaired pattern is ordinary input space and is no longer avoided.
+type c11AssocFactsT struct {
+	Once bool `json:"once"`
+}
+
+var c11AssocFactsCache *c11AssocFactsT
+
+func c11AssocFacts() c11AssocFactsT {
+	if c11AssocFactsCache == nil {
+		f := c11AssocFactsT{}
+		if outs, err := AskLean([][]interface{}{{"assoc.facts"}}); err == nil && len(outs) == 1 {
+			_ = json.Unmarshal(outs[0], &f)
+		}
+		c11AssocFactsCache = &f
 	}
-	errD, errU := run("D"), run("U")
+	return *c11AssocFactsCache
+}
+
+// while F35 is a listed finding of an unrepaired tree the generators produce its pattern only now and then
+func c11AvoidF35() bool { return listed(c11F35) && !c11AssocFacts().Once }
+
+// the listed witness of F35 (family D) and its control (family U: every relation at the top level)
+func c11F35Witness(fam string) c11Case {
+	f := c11Families[fam]
+	w := c11ScaleWorld(f, 3, 7, nil)
+	w.idx = nil
+	return c11Case{World: w, Op: c11Op{Kind: "query", Parent: f.parentTables()[0].Name, Shape: "slice", All: true, AllC: c11Cond{Kind: "in", Set: []int{1, 2, 3}, Style: "inline"}}}
+}
+
+// a generated occurrence of the pattern: Preload(clause.Associations, <inline condition with arguments>) on a model with
+// relations in `embedded`-tagged structs, every destination shape, plain / PrepareStmt / transaction / pinned connection
+func c11GenF35Case(rng *rand.Rand) c11Case {
+	f := c11Families["D"]
+	var pts []*c11Table
+	for _, t := range f.parentTables() {
+		if t.hasEmb() {
+			pts = append(pts, t)
+		}
+	}
+	w := f.Gen(rng, 0)
+	op := c11Op{Kind: "query", Parent: pts[rng.Intn(len(pts))].Name, All: true}
+	op.Shape = []string{"slice", "ptrs", "single", "dup"}[rng.Intn(4)]
+	op.AllC = genC11Cond(rng, f.maxN(w), []string{"inline"})
+	op.Ctx = []string{"", "", "prepare", "prepare", "tx", "conn", "txprepare"}[rng.Intn(7)]
+	op.Twice = op.Shape == "single" && rng.Intn(3) == 0
+	op.Unscoped = rng.Intn(4) == 0
+	return c11Case{World: w, Op: op}
+}
+
+// per run: (1) the Lean model of the conditions reaching preload (assocCondsCurrent + inlineWellFormed, following the
+// regenerated fact) agrees with error / no error of the witness on family D and of the same call on family U; (2) the witness
+// is judged: an error is the KNOWN finding while it is listed, a VIOLATION otherwise, and without an error the loaded
+// associations must equal the reference join; (3) generated occurrences of the pattern go through the world judge — a few
+// while the finding is listed and the tree unrepaired, freely otherwise
+func c11F35Probe(r *Result, rng *rand.Rand, tier string) {
+	run := func(fam string) (c11Case, string, error) {
+		cs := c11F35Witness(fam)
+		got, want, err := c11RunCase(cs)
+		diff := ""
+		if err == nil && strings.Join(got, "\n") != strings.Join(want, "\n") {
+			diff = "loaded associations differ from the reference join"
+		}
+		return cs, diff, err
+	}
+	csD, diffD, errD := run("D")
+	_, diffU, errU := run("U")
 	outs, lerr := AskLean([][]interface{}{{"assoc.conds", 1, []string{"n IN ?", "[1 2 3]"}, 1}, {"assoc.conds", 0, []string{"n IN ?", "[1 2 3]"}, 1}})
 	if lerr != nil {
 		r.Violate(Violation{Kind: "correspondence", Suite: "assoc-conds", Note: lerr.Error()})
@@ -298,13 +354,41 @@ func c11F35Probe(r *Result) {
 	_ = json.Unmarshal(outs[1], &mu)
 	r.CorrCompared += 2
 	r.H("assoc-conds", fmt.Sprintf("embedded: real error=%v model well-formed=%v; top level: real error=%v model well-formed=%v", errD != nil, md.OK, errU != nil, mu.OK))
+	r.H("assoc-conds.fact", fmt.Sprintf("once=%v", c11AssocFacts().Once))
+	witness := "Preload(clause.Associations, \"n IN ?\", []int{1, 2, 3}) on family D (relations in embedded structs) and family U (top level)"
 	if (errD == nil) != md.OK || (errU == nil) != mu.OK {
-		r.Violate(Violation{Kind: "correspondence", Suite: "assoc-conds", Input: "Preload(clause.Associations, \"n IN ?\", []int{1, 2, 3}) on family D (relations in embedded structs) and family U (top level)",
+		r.Violate(Violation{Kind: "correspondence", Suite: "assoc-conds", Input: witness,
 			Observed: fmt.Sprint("D: ", errD, " / U: ", errU), Expected: fmt.Sprint("model: D well-formed=", md.OK, " U well-formed=", mu.OK),
-			Note: "conditions reaching callbacks.preload through parsePreloadMap / preloadEntryPoint vs Lean Gorm.assocCondsReaching + inlineWellFormed"})
+			Note: "conditions reaching callbacks.preload through parsePreloadMap / preloadEntryPoint vs Lean Gorm.assocCondsCurrent + inlineWellFormed"})
 	}
-	if errD != nil && listed(c11F35) {
+	r.Case("assoc-conds", canon(csD.Op), true)
+	switch {
+	case errD != nil && listed(c11F35):
 		r.KnownFinding(c11F35, "witness re-confirmed: "+errD.Error())
+	case errD != nil || diffD != "":
+		r.Violate(Violation{Kind: "e2e", Suite: "assoc-conds", Input: witness, Observed: fmt.Sprint("family D: ", errD, " ", diffD),
+			Expected: "no error; every relation (embedded or not) carries exactly the live children with n IN (1, 2, 3)",
+			Note:     "Preload(clause.Associations, cond, args…): every relation must receive the conditions exactly once"})
+	}
+	if errU != nil || diffU != "" {
+		r.Violate(Violation{Kind: "e2e", Suite: "assoc-conds", Input: witness, Observed: fmt.Sprint("family U: ", errU, " ", diffU),
+			Expected: "no error; every relation carries exactly the live children with n IN (1, 2, 3)"})
+	}
+	if rng == nil {
+		return
+	}
+	n := 24
+	if tier == "thorough" {
+		n = 200
+	}
+	if c11AvoidF35() {
+		n = 3
+	}
+	for i := 0; i < n && !expired(); i++ {
+		cs := c11GenF35Case(rng)
+		r.Case("assoc-conds", canon(cs), len(cs.World.Tables[cs.Op.Parent]) >= 2)
+		r.H("assoc-conds.gen", cs.Op.AllC.Kind+"/"+cs.Op.Shape+"/ctx="+cs.Op.Ctx)
+		c11JudgeWorld(r, cs, false)
 	}
 }
 
@@ -330,7 +414,7 @@ func init() {
 		}
 		fams := []string{"S", "C", "R", "N", "U", "E", "S", "R", "N", "C", "D"}
 		c11JudgeWorld(r, c11F6bWitness(), true) // dedicated probe of the listed finding F6b
-		c11F35Probe(r)
+		c11F35Probe(r, rng, tier)
 		for i := 0; i < worlds && !expired(); i++ {
 			f := c11Families[fams[i%len(fams)]]
 			mode := 0
@@ -400,7 +484,7 @@ func init() {
 		defer closeFn()
 		c11JudgeFault(r, db, rec, cs)
 	}
-	replayers["C11/assoc-conds"] = func(r *Result, input json.RawMessage) { c11F35Probe(r) }
+	replayers["C11/assoc-conds"] = func(r *Result, input json.RawMessage) { c11F35Probe(r, nil, "") }
 	replayers["C11/world"] = func(r *Result, input json.RawMessage) {
 		var cs c11Case
 		if err := json.Unmarshal(input, &cs); err != nil {
